@@ -1214,6 +1214,8 @@ func vpC12ProbeMixed() {
 	})
 }
 
+const vpC12ShortIdle = 12 * time.Millisecond
+
 func vpC12Case(t *rapid.T) {
 	conc := rapid.IntRange(1, 4).Draw(t, "concurrency")
 	maxIP := rapid.IntRange(0, 3).Draw(t, "maxConnsPerIP")
@@ -1221,6 +1223,8 @@ func vpC12Case(t *rapid.T) {
 	keepHj := rapid.Bool().Draw(t, "keepHijacked")
 	reduceMem := rapid.Bool().Draw(t, "reduceMem")
 	hotIP := rapid.IntRange(0, 3).Draw(t, "hotIP") // the address most arrivals come from
+	// a short MaxIdleWorkerDuration: the worker pool's cleaner retires idle workers while the case runs
+	shortIdle := mode != "serveconn" && rapid.IntRange(0, 3).Draw(t, "shortIdleWorkers") == 0
 
 	r := &vpC12Run{t: t, conc: conc, maxIP: maxIP, mode: mode, keepHj: keepHj, hotIP: hotIP,
 		reg: map[string]*vpC12Req{}, inHandler: map[int]int{}}
@@ -1232,6 +1236,16 @@ func vpC12Case(t *rapid.T) {
 		KeepHijackedConns: keepHj,
 		ReduceMemoryUsage: reduceMem,
 		ConnState:         r.connState,
+	}
+	if shortIdle {
+		s.MaxIdleWorkerDuration = vpC12ShortIdle
+	}
+	idleClean := func() {
+		// long enough for the cleaner (it runs every MaxIdleWorkerDuration) to retire every worker that
+		// is idle now, and for the retired goroutines to end
+		time.Sleep(4 * vpC12ShortIdle)
+		r.script = append(r.script, "idleWorkersCleaned")
+		vpExtra("c12_idle_worker_cleanups", 1)
 	}
 	r.s = s
 	r.ln = &vpC12Listener{ch: make(chan net.Conn, 64), closed: make(chan struct{}), accepting: make(chan struct{})}
@@ -1289,7 +1303,7 @@ func vpC12Case(t *rapid.T) {
 
 	nSteps := rapid.IntRange(4, 16).Draw(t, "steps")
 	for i := 0; i < nSteps; i++ {
-		op := rapid.SampledFrom([]string{"open", "open", "open", "burst", "release", "release", "release", "request", "request", "clientClose", "hijackRelease", "hijackRelease", "settle"}).Draw(t, "op")
+		op := rapid.SampledFrom([]string{"open", "open", "open", "burst", "release", "release", "release", "request", "request", "clientClose", "hijackRelease", "hijackRelease", "settle", "idleClean"}).Draw(t, "op")
 		done := false
 		switch op {
 		case "open":
@@ -1310,6 +1324,12 @@ func vpC12Case(t *rapid.T) {
 			r.settleAll()
 			r.script = append(r.script, "settle")
 			done = true
+		case "idleClean":
+			if shortIdle {
+				r.settleAll()
+				idleClean()
+				done = true
+			}
 		}
 		if !done {
 			r.stepOpen()
@@ -1322,6 +1342,9 @@ func vpC12Case(t *rapid.T) {
 	r.script = append(r.script, "closeAll")
 	r.closeEverything()
 	r.quiescent("at quiescence")
+	if shortIdle {
+		idleClean() // every worker is idle now: the limit must hold just the same after they were retired
+	}
 	if mode != "serveconn" {
 		r.readmit(true)
 	}
@@ -1380,7 +1403,7 @@ func vpC12Case(t *rapid.T) {
 	}
 	// the re-admission phase always reaches both limits; non-triviality is about the generated part
 	nontrivial := (gen503 || gen429) && (r.sawHijack || r.sawError)
-	key := fmt.Sprintf("c=%d ip=%d %s k=%v rm=%v %s", conc, maxIP, mode, keepHj, reduceMem, strings.Join(r.script, " "))
+	key := fmt.Sprintf("c=%d ip=%d %s k=%v rm=%v shortidle=%v %s", conc, maxIP, mode, keepHj, reduceMem, shortIdle, strings.Join(r.script, " "))
 	vpCase(class, nontrivial, key, func() string { return key })
 	vpExtra("c12_connections", int64(len(r.conns)))
 	if r.sawBurst {
